@@ -24,3 +24,7 @@ package apk
 //@   loop 3 sig "for i, digest := range signedData.Digests" invariant cmpOK == rangeindex + 1 && -1 <= rangeindex && rangeindex < len(signedData.Digests)
 //@   ensures @every_v2_signature_value_verified ret1 == nil ==> len(s.Signatures) >= 1 && sigsOK == len(s.Signatures)
 //@   ensures @every_signed_digest_compared_with_the_recomputed_one ret1 == nil && inz != nil ==> len(signedData.Digests) >= 1 && cmpOK == len(signedData.Digests)
+//@
+//@ func unmarshalR
+//@   property C11
+//@   nopanic implicit
